@@ -77,6 +77,21 @@ pub fn repository_of(d: &AlnDoc) -> fasta::Repository {
     fasta::Repository::new(records)
 }
 
+/// Exercise a `Debug` implementation. A `fmt::Error` returned by it is an error, not a panic
+/// (`format!` would turn it into a panic of the formatting machinery), so it is ignored here.
+pub fn dbg_touch<T: std::fmt::Debug>(x: &T) {
+    use std::fmt::Write as _;
+    struct Sink(usize);
+    impl std::fmt::Write for Sink {
+        fn write_str(&mut self, s: &str) -> std::fmt::Result {
+            self.0 += s.len();
+            if self.0 > 4_000_000 { Err(std::fmt::Error) } else { Ok(()) }
+        }
+    }
+    let mut sink = Sink(0);
+    let _ = write!(sink, "{x:?}");
+}
+
 // ---------------------------------------------------------------------------------------------
 // event helpers
 
@@ -345,7 +360,7 @@ pub fn sweep_alignment_record(header: &sam::Header, rec: &dyn sam::alignment::Re
     let data = rec.data();
     for f in data.iter().take(100_000) {
         if let Ok((_tag, value)) = f {
-            let _ = format!("{value:?}");
+            dbg_touch(&value);
         }
     }
     let _ = rec.alignment_span();
@@ -464,7 +479,7 @@ impl Driver for BamDriver {
                     }
                     Ok(_) => {
                         if opts.sweep {
-                            let _ = format!("{rec:?}");
+                            dbg_touch(&rec);
                         }
                         match aln_record_text(&header, &rec, opts.sweep) {
                             Ok(s) => {
@@ -543,7 +558,7 @@ fn read_bam_raw(data: &Arc<Vec<u8>>, d: &Delivery, opts: &ReadOpts, eager: bool)
             }
             Ok(_) => {
                 if opts.sweep {
-                    let _ = format!("{rec:?}");
+                    dbg_touch(&rec);
                 }
                 match aln_record_text(&header, &rec, opts.sweep) {
                     Ok(s) => {
@@ -633,7 +648,7 @@ pub fn sweep_sam_lazy(data: &[u8]) {
         }
         n += 1;
         sweep_alignment_record(&header, &rec);
-        let _ = format!("{rec:?}");
+        dbg_touch(&rec);
         let _ = sam::alignment::RecordBuf::try_from_alignment_record(&header, &rec);
     }
 }
@@ -803,7 +818,7 @@ pub fn sweep_variant_record(header: &vcf::Header, rec: &dyn vcf::variant::Record
     let info = rec.info();
     for f in info.iter(header).take(10_000) {
         if let Ok((_k, v)) = f {
-            let _ = format!("{v:?}");
+            dbg_touch(&v);
         }
     }
     if let Ok(samples) = rec.samples() {
@@ -817,7 +832,7 @@ pub fn sweep_variant_record(header: &vcf::Header, rec: &dyn vcf::variant::Record
                 let _ = series.name(header);
                 for v in series.iter(header).take(1000) {
                     if let Ok(Some(v)) = v {
-                        let _ = format!("{v:?}");
+                        dbg_touch(&v);
                     }
                 }
             }
@@ -825,7 +840,7 @@ pub fn sweep_variant_record(header: &vcf::Header, rec: &dyn vcf::variant::Record
         for sample in samples.iter().take(1000) {
             for f in sample.iter(header).take(1000) {
                 if let Ok((_k, Some(v))) = f {
-                    let _ = format!("{v:?}");
+                    dbg_touch(&v);
                 }
             }
         }
@@ -868,7 +883,7 @@ fn read_vcf_stream<R: BufRead>(mut r: vcf::io::Reader<R>, tx: &mut Tx, vpos: &dy
             }
             Ok(_) => {
                 if tx.opts.sweep {
-                    let _ = format!("{rec:?}");
+                    dbg_touch(&rec);
                 }
                 match var_record_text(&header, &rec, tx.opts.sweep) {
                     Ok(s) => {
@@ -1040,7 +1055,7 @@ fn read_bcf_stream<R: Read>(mut r: bcf::io::Reader<R>, tx: &mut Tx, vpos: &dyn F
                 }
                 Ok(_) => {
                     if opts.sweep {
-                        let _ = format!("{rec:?}");
+                        dbg_touch(&rec);
                     }
                     match var_record_text(&header, &rec, opts.sweep) {
                         Ok(s) => {
@@ -1408,7 +1423,7 @@ pub fn gff_line_text(line: &gff::Line, sweep: bool) -> String {
                     let attrs = rec.attributes();
                     for a in attrs.iter().take(10_000) {
                         if let Ok((_k, v)) = a {
-                            let _ = format!("{v:?}");
+                            dbg_touch(&v);
                         }
                     }
                 }
@@ -1441,10 +1456,10 @@ pub fn gtf_line_text(line: &gtf::Line, sweep: bool) -> String {
                     if let Ok(attrs) = rec.attributes() {
                         for a in attrs.iter().take(10_000) {
                             if let Ok((_k, v)) = a {
-                                let _ = format!("{v:?}");
+                                dbg_touch(&v);
                             }
                         }
-                        let _ = format!("{attrs:?}");
+                        dbg_touch(&attrs);
                     }
                 }
                 match gff::feature::RecordBuf::try_from_feature_record(&rec) {
